@@ -15,14 +15,31 @@ int64_t evaluate_assignment(
 
     debug_msg(DebugMsgId::EXPR_EVAL_BINARY_OP, "Processing AST_ASSIGN");
 
+    // The parser stores a plain variable target in node->name and leaves
+    // node->left empty (a = b = 3, (x = f()) > 0); element, member, arrow and
+    // dereference targets are kept in node->left.
+    const ASTNode *target = node->left.get();
+
+    // A member, arrow or dereference target of a nested assignment
+    // (a = s.x = 3) is stored by the statement form, which knows every kind
+    // of target; the value of the assignment is the value then held by the
+    // target.
+    if (target && (target->node_type == ASTNodeType::AST_MEMBER_ACCESS ||
+                   target->node_type == ASTNodeType::AST_ARROW_ACCESS ||
+                   (target->node_type == ASTNodeType::AST_UNARY_OP &&
+                    target->op == "DEREFERENCE"))) {
+        interpreter.execute_statement(node);
+        return evaluate_expression_func(target);
+    }
+
     // 右辺が配列リテラルの場合は特別処理
     if (node->right &&
         node->right->node_type == ASTNodeType::AST_ARRAY_LITERAL) {
         debug_msg(DebugMsgId::EXPR_EVAL_BINARY_OP,
                   "Right side is array literal");
         // 配列リテラル代入処理
-        if (node->left->node_type == ASTNodeType::AST_VARIABLE) {
-            std::string var_name = node->left->name;
+        if (!target || target->node_type == ASTNodeType::AST_VARIABLE) {
+            std::string var_name = target ? target->name : node->name;
             std::string debug_text = "Array literal assignment to: " + var_name;
             debug_msg(DebugMsgId::EXPR_EVAL_BINARY_OP, debug_text.c_str());
             interpreter.assign_array_literal(var_name, node->right.get());
@@ -61,8 +78,8 @@ int64_t evaluate_assignment(
     // effect: the index of T is evaluated here, once and before the
     // right-hand side, and T' reuses the value.
     std::vector<int64_t> compound_target_indices;
-    if (node->left->node_type == ASTNodeType::AST_ARRAY_REF && node->right &&
-        node->right->node_type == ASTNodeType::AST_BINARY_OP &&
+    if (target && target->node_type == ASTNodeType::AST_ARRAY_REF &&
+        node->right && node->right->node_type == ASTNodeType::AST_BINARY_OP &&
         node->right->left && node->right->left->reuse_assign_target_indices) {
         compound_target_indices =
             interpreter.extract_array_indices(node->left.get());
@@ -76,8 +93,8 @@ int64_t evaluate_assignment(
     } catch (const ReturnException &ret) {
         if (ret.is_array) {
             std::string var_name;
-            if (node->left->node_type == ASTNodeType::AST_VARIABLE) {
-                var_name = node->left->name;
+            if (target && target->node_type == ASTNodeType::AST_VARIABLE) {
+                var_name = target->name;
             } else {
                 var_name = node->name;
             }
@@ -133,7 +150,7 @@ int64_t evaluate_assignment(
         return 0;
     }
 
-    if (node->left->node_type == ASTNodeType::AST_ARRAY_REF) {
+    if (target && target->node_type == ASTNodeType::AST_ARRAY_REF) {
         // 配列要素への代入
         std::string var_name;
         if (node->left->left &&
